@@ -319,6 +319,10 @@ def run_scenario(sc):
             q = DNSOutgoing(const._FLAGS_QR_QUERY, id_=4242)
             q.add_question(DNSQuestion(probe_svc['name'], const._TYPE_SRV, const._CLASS_IN))
             sim.net.inject(a, q.packets()[0], ('fe80::77', 5353, 0, 3) if sc.get('v6') else ('10.0.0.77', 5353))
+            # ... and a pointer question, whose answer goes through the aggregation queue and its timers
+            q2 = DNSOutgoing(const._FLAGS_QR_QUERY, id_=4243)
+            q2.add_question(DNSQuestion(probe_svc['type'], const._TYPE_PTR, const._CLASS_IN))
+            sim.net.inject(a, q2.packets()[0], ('fe80::79', 5353, 0, 3) if sc.get('v6') else ('10.0.0.79', 5353))
             ncb = len(res['callbacks'])
             fresh = svc('fresh', TB, 'hfresh.local.', 12)
             o = c03.own_records(fresh)
@@ -329,6 +333,8 @@ def run_scenario(sc):
             await sim.sleep(1500)
             res['answered'] = any(any(r.type == 33 and r.name == probe_svc['name'] and r.ttl > 0 for r in c09.parse(data).answers())
                                   for (ms, host, dest, data, idx) in sim.net.log[mark:] if host == 'A' and not c09.parse(data).is_query())
+            res['ptr_answered'] = any(any(r.type == 12 and r.alias == probe_svc['name'] and r.ttl > 0 for r in c09.parse(data).answers())
+                                      for (ms, host, dest, data, idx) in sim.net.log[mark:] if host == 'A' and not c09.parse(data).is_query())
             res['fresh_added'] = ('add', fresh['name']) in [(c[1], c[2]) for c in res['callbacks'][ncb:]]
             res['dump'] = nr.cache_dump()
             for t in tasks:
@@ -362,6 +368,8 @@ def oracle(sc, res):
         return "the scenario did not run to its end"
     if not res['answered']:
         return "after the stream a well-formed query for a registered service was not answered"
+    if not res.get('ptr_answered', True):
+        return "after the stream a well-formed pointer query for a registered type was not answered within 1.5 s"
     if sc['browser'] and not res['fresh_added']:
         return "after the stream an announcement of a new service did not reach the browser"
     return None
